@@ -147,7 +147,7 @@ inline Result exec_c06(const Plan& plan)
         res.signature = "HARNESS:bad-frame-spec";
         return res;
     }
-    PlanBudget budget(plan.geti("budget_ms", 20000));
+    PlanBudget budget(plan.geti("budget_ms", 60000));
     sim::Hasher fp;
     const SchemaShape& sh = *fs.drv->shape;
     Frame f = make_frame(fs);
@@ -302,7 +302,11 @@ inline Plan gen_c06(u64 seed, const std::string& tier)
     else
     {
         p.set("mode", "explore-multi-fault");
-        if(fl.chance(1, 3)) p.seti("extend", 1);
+        if(fl.chance(1, 3))
+        {
+            p.seti("extend", 1);
+            p.seti("maxboundary", 300); // every truncation point is evaluated: keep frames small
+        }
         const int nf = (int)fl.range(1, 3);
         for(int i = 0; i < nf; i++)
         {
